@@ -43,7 +43,7 @@ var Prop = &engine.Prop{
 		"an integer counts as accepted by a block when SetI64 / SetU32 returned nil; the block must afterwards iterate exactly the accepted integers",
 		"the sparse/dense traversal threshold of the internal Bit64 iterator (verif hook VerifSetSparseMagic) is set per case from the case seed to 9 (default), 0 or 64; the result of an iteration must not depend on it",
 	},
-	ShardsQuick: 4, ShardsThorough: 64,
+	ShardsQuick: 4, ShardsThorough: 16,
 	Kinds: []engine.Kind{
 		{Name: "marshal", Quick: 2400, Thorough: 240000, Fn: marshalCase},
 		{Name: "unmarshal", Quick: 3000, Thorough: 300000, Fn: unmarshalCase},
